@@ -115,8 +115,23 @@ def canon(v):
     return ('r', repr(v))
 
 
+def srepr(v):
+    """repr() that does not depend on the hash seed (sets are printed in canonical order)."""
+    if isinstance(v, (set, frozenset)):
+        return '{' + ', '.join(sorted((srepr(x) for x in v))) + '}' if v else 'set()'
+    if isinstance(v, list):
+        return '[' + ', '.join(srepr(x) for x in v) + ']'
+    if isinstance(v, tuple):
+        return '(' + ', '.join(srepr(x) for x in v) + (',)' if len(v) == 1 else ')')
+    if isinstance(v, dict):
+        return '{' + ', '.join('%s: %s' % (srepr(k), srepr(x)) for k, x in v.items()) + '}'
+    if isinstance(v, (D.Pt, D.Box)):
+        return '%s(%s)' % (type(v).__name__, ', '.join('%s=%s' % (k, srepr(x)) for k, x in sorted(v.__dict__.items())))
+    return repr(v)
+
+
 def short(v, limit=80):
-    r = repr(v)
+    r = srepr(v)
     return r if len(r) <= limit else r[:limit - 3] + '...'
 
 
